@@ -1,6 +1,13 @@
 class Writer:
   def __str__(self):
+    if self.vlevel >= 2:
+      # (as the writer of the other lines: what is written is valid)
+      for fn in ["spacer", "content"]:
+        self.validate_field(fn)
     return "#" + str(self.spacer) + str(self.content)
+
+  def to_str(self, add_virtual_commentary = True):
+    return str(self)
 
   def to_list(self):
     """Convert the content of the comment line to a list.
